@@ -81,8 +81,8 @@ func (a c19SS) Store(k string, v int) {
 	}
 	a.s.Store(k, v)
 }
-func (a c19SS) Delete(k string)       { a.s.Delete(k) }
-func (a c19SS) Len() int              { return a.s.Len() }
+func (a c19SS) Delete(k string) { a.s.Delete(k) }
+func (a c19SS) Len() int        { return a.s.Len() }
 func (a c19SS) Range(f func(k string, v int) bool) {
 	a.s.Range(func(k string, v any) bool { n, _ := v.(int); return f(k, n) })
 }
